@@ -113,7 +113,12 @@ func c03Oracle(r *bufRun) bool {
 			want = refDefaultCleaner(c.size, c.offsets)
 		case "fixed":
 			if c.size > r.max {
+				// back to the target size, and never short of what the default removes ("forces cleanup
+				// past the default"): see D5 in DESIGN.md section 7
 				want = c.size - r.target
+				if d := refDefaultCleaner(c.size, c.offsets); d > want {
+					want = d
+				}
 			} else {
 				want = refDefaultCleaner(c.size, c.offsets)
 			}
